@@ -95,6 +95,14 @@ class Check:
             self.proof_break("translator", "tools/gen.py: " + out.strip().replace("\n", "; ")); return False
         need = self.gen_deps()
         bad = []
+        self.soft = []
+        for mod, st in status.items():
+            if st.get("soft") and set(st["files"]) & need:
+                self.soft += [f"{mod}: {m}" for m in st["soft"]]
+        if self.soft:
+            self.cov["constructs_changed"] = self.soft
+            for m in self.soft:
+                print("NOTE translator construct no longer matches (soft): " + m)
         for mod, st in status.items():
             if st["missing"] and (set(st["files"]) & need or not st["files"] and self.s.get("gen_all")):
                 bad += [f"{mod}: {m}" for m in st["missing"]]
@@ -316,6 +324,8 @@ def standard_main(spec, argv):
     total = distinct = 0; samples = []; dist = {}
     for h in spec.get("harness", []):
         n = h["n"][c.tier]
+        if getattr(c, "soft", None) and c.tier == "quick":
+            n *= 3   # a mirrored statement changed shape: re-validate the model on more cases
         hargs = ["--n", str(n)] + h.get("args", [])
         ok = c.build_harness([h["bin"]], release=h.get("release", False)); c.phase("cargo")
         if not ok: continue
